@@ -9,6 +9,7 @@ import (
 
 	u "github.com/utreexo/utreexo"
 
+	"verifharness/core"
 	"verifharness/gen"
 	rm "verifharness/refmodel"
 )
@@ -103,8 +104,116 @@ type World struct {
 	Insts []*Inst
 	Recs  []*BlockRec
 	// LeafOverride, if set, may replace the hash of the addIdx-th leaf added by the
-	// block that is being prepared (blockIdx = number of blocks committed so far).
-	LeafOverride func(blockIdx, addIdx int, before *rm.Model) (Hash, bool)
+	// block that is being prepared (blockIdx = number of blocks committed so far;
+	// rec holds the state before the block, the deleted hashes and, in AddHashes,
+	// the hashes of the block's additions decided so far).
+	LeafOverride func(blockIdx, addIdx int, rec *BlockRec) (Hash, bool)
+}
+
+// SetLeafMode installs one of the adversarial leaf-hash modes (a deterministic
+// function of the world's tag, the block index and the addition index):
+//
+//	"readd":  some additions reuse the hash of a leaf that the same block deletes, or of a
+//	          leaf that died earlier - still distinct from every live leaf;
+//	"collide": some additions are the hash of an internal node of the forest before the block;
+//	"prefix": some additions share their first 12 bytes (the pointer forest's map key)
+//	          with the previous addition of the block, with a live leaf or with a root,
+//	          and differ in the rest.
+func (w *World) SetLeafMode(mode string) {
+	if mode == "" {
+		return
+	}
+	tag := w.Tag
+	w.LeafOverride = func(blockIdx, addIdx int, rec *BlockRec) (Hash, bool) {
+		d := core.FP("leafmode", tag, blockIdx, addIdx)
+		switch mode {
+		case "readd":
+			if d%4 != 0 {
+				return Hash{}, false
+			}
+			live := map[Hash]bool{}
+			for s, h := range rec.Before.Leaves {
+				if rec.Before.Alive[s] {
+					live[h] = true
+				}
+			}
+			for _, h := range rec.DelHashes {
+				delete(live, h)
+			}
+			for _, h := range rec.AddHashes[:addIdx] {
+				live[h] = true
+			}
+			var cand []Hash
+			seen := map[Hash]bool{}
+			for _, h := range rec.DelHashes {
+				if !live[h] && !seen[h] {
+					seen[h] = true
+					cand = append(cand, h)
+				}
+			}
+			for s, h := range rec.Before.Leaves {
+				if !rec.Before.Alive[s] && !live[h] && !seen[h] {
+					seen[h] = true
+					cand = append(cand, h)
+				}
+			}
+			if len(cand) == 0 {
+				return Hash{}, false
+			}
+			return cand[int((d>>8)%uint64(len(cand)))], true
+		case "collide":
+			// the hash of an internal node of the forest before the block
+			if d%4 != 0 {
+				return Hash{}, false
+			}
+			f := rec.Before.Forest()
+			var internal []uint64
+			for pos := uint64(0); pos < uint64(2)<<f.H; pos++ {
+				if nd := f.Nodes[pos]; nd != nil && nd.Leaf < 0 {
+					internal = append(internal, pos)
+				}
+			}
+			if len(internal) == 0 {
+				return Hash{}, false
+			}
+			h := f.Nodes[internal[int((d>>8)%uint64(len(internal)))]].Hash
+			for _, l := range rec.Before.Leaves {
+				if l == h {
+					return Hash{}, false
+				}
+			}
+			for _, l := range rec.AddHashes[:addIdx] {
+				if l == h {
+					return Hash{}, false
+				}
+			}
+			return h, true
+		case "prefix":
+			if d%3 != 0 {
+				return Hash{}, false
+			}
+			var src Hash
+			switch {
+			case addIdx > 0 && (d>>8)%3 == 0:
+				src = rec.AddHashes[addIdx-1]
+			case len(rec.PrevRoots) > 0 && (d>>8)%3 == 1:
+				src = rec.PrevRoots[int((d>>16)%uint64(len(rec.PrevRoots)))]
+			default:
+				lv := rec.Before.Live()
+				if len(lv) == 0 {
+					return Hash{}, false
+				}
+				src = rec.Before.Leaves[lv[int((d>>16)%uint64(len(lv)))]]
+			}
+			if src == (Hash{}) {
+				return Hash{}, false
+			}
+			h := rm.FreshHash(tag^0x9e3779b9, uint64(blockIdx)<<24|uint64(addIdx))
+			copy(h[:12], src[:12])
+			return h, true
+		}
+		return Hash{}, false
+	}
 }
 
 func NewWorld(tag uint64, cfgs []InstCfg) *World {
@@ -186,7 +295,7 @@ func (w *World) PrepareBlock(b gen.Block) *BlockRec {
 	_, rec.AddHashes = gen.ApplyToModel(after, b, w.Tag, &ctr)
 	if w.LeafOverride != nil {
 		for i := range rec.AddHashes {
-			if h, ok := w.LeafOverride(len(w.Recs), i, rec.Before); ok {
+			if h, ok := w.LeafOverride(len(w.Recs), i, rec); ok {
 				rec.AddHashes[i] = h
 				after.Leaves[len(rec.Before.Leaves)+i] = h
 			}
